@@ -96,7 +96,8 @@ Definition check_C15 := failing (run_checker chk_C15).
      44 admin list differs from the one the accepted messages produce           45 empty admin list or duplicates in it
      46 a block of rejected transactions changed tenants / records / balances
      51 records resolved in an end-block are not a prefix, in id order, of the tenant's queue
-     52 head of the queue is mature and covered, no fault injected, yet it was not paid   53 mature record without recipients not dropped *)
+     52 head of the queue is mature and covered, no fault injected, yet it was not paid   53 mature record without recipients not dropped
+     54 a record of a tenant whose token contract is a reserved address (every call to it fails) is reported settled *)
 Record track := mkTr {
   tr_pend : list (Z * bytes * Z);
   tr_maxid : list (Z * Z);
@@ -289,6 +290,9 @@ Definition chk_fifo (prev : snap) (blk : list event) (blko : list iobs) (sn : sn
     let queue := filter (fun x : Z * utxr => negb (memZ (fst x) gone)) (utxrs_of (s_utxrs (sn_s prev)) tid) in
     let k := length resolved_now in
     (if list_eqb Z.eqb resolved_now (map fst (firstn k queue)) then [] else [51])
+    (* 54: a tenant whose token contract fails every call (a reserved address, method 3) cannot have been paid: a record
+       of it that is reported settled is lost, not deferred *)
+    ++ (if (t_method tn =? 3) && negb (lenZ (ids_of_tenant evs [3] tid) =? 0) then [54] else [])
     ++ match nth_error queue k with
        | Some (uid, _) =>
            match utxr_get (s_utxrs (sn_s sn)) tid uid with
